@@ -149,33 +149,25 @@ func (chain *Blockchain) Extends(block, target *hotstuff.Block) bool {
 	return ok && current.Hash() == target.Hash()
 }
 
-// PruneToHeight prunes the blockchain to the given height.
-func (chain *Blockchain) PruneToHeight(committedHeight, height hotstuff.View) (forkedBlocks []*hotstuff.Block) {
+// PruneToHeight prunes the blockchain to the given height and returns the blocks above the
+// previous prune height that are not on the branch of the committed block.
+// The committed branch is found by following the parent hashes of the committed block;
+// blockAtHeight cannot be used for this since it only remembers the block stored last for
+// each view, which may be a block from an equivocating leader.
+func (chain *Blockchain) PruneToHeight(committed *hotstuff.Block, height hotstuff.View) (forkedBlocks []*hotstuff.Block) {
 	chain.mut.Lock()
 	defer chain.mut.Unlock()
 
-	committedViews := make(map[hotstuff.View]bool)
-	committedViews[committedHeight] = true
-	for h := committedHeight; h >= chain.pruneHeight; {
-		block, ok := chain.blockAtHeight[h]
-		if !ok {
-			break
-		}
-		parent, ok := chain.blocks[block.Parent()]
-		if !ok || parent.View() < chain.pruneHeight {
-			break
-		}
-		h = parent.View()
-		committedViews[h] = true
+	onCommittedBranch := make(map[hotstuff.Hash]bool)
+	for block, ok := committed, committed != nil; ok && block.View() > chain.pruneHeight; block, ok = chain.blocks[block.Parent()] {
+		onCommittedBranch[block.Hash()] = true
 	}
 
 	for h := height; h > chain.pruneHeight; h-- {
-		if !committedViews[h] {
-			block, ok := chain.blockAtHeight[h]
-			if ok {
-				chain.logger.Debugf("PruneToHeight: found forked block: %v", block)
-				forkedBlocks = append(forkedBlocks, block)
-			}
+		block, ok := chain.blockAtHeight[h]
+		if ok && !onCommittedBranch[block.Hash()] {
+			chain.logger.Debugf("PruneToHeight: found forked block: %v", block)
+			forkedBlocks = append(forkedBlocks, block)
 		}
 		delete(chain.blockAtHeight, h)
 	}
